@@ -223,6 +223,26 @@ def _fill(shape, items):
 _newbuf_log = None
 
 
+def _index_guard(idxs, n):
+    """numpy raises IndexError for an index outside [-n, n): a symbolic index forks the path on that condition
+    (the out-of-range side is explored when feasible, and ends in the same exception)."""
+    conds = []
+    for ix in idxs:
+        if isinstance(ix, int):
+            if not -n <= ix < n:
+                raise IndexError(f'index {ix} is out of bounds for axis 0 with size {n}')
+            continue
+        conds += [ix >= -n, ix < n]
+    if not conds:
+        return
+    event('index', (len(conds) // 2, n))
+    ok = sb_and(conds)
+    if n == 0 or not ok:
+        raise IndexError(f'index is out of bounds for axis 0 with size {n}')
+    if isinstance(ok, SB):
+        ctx().pc.append(ok.t)          # we are on the in-range side: keep the (possibly context-free) fact for later queries
+
+
 class ndarray:
     __array_priority__ = 2000
     __hash__ = None
@@ -446,15 +466,14 @@ class ndarray:
         def gather(ix):
             if isinstance(ix, int):
                 return items[ix]
-            assume_in = sb_and([ix >= -n, ix < n])
-            ctx().defs.append(assume_in.t)
-            event('index', (ix, n))
             res = items[n - 1]
             for p in range(n - 2, -1, -1):
                 res = ite(sb_or([ix == p, ix == p - n]), items[p], res)
             return res
         if isinstance(key, SI):
+            _index_guard([key], n)
             return gather(key)
+        _index_guard(key.flat_list(), n)
         out = [gather(ix) for ix in key.flat_list()]
         return ndarray(_fill(key.shape, out), self._tag)
 
@@ -492,12 +511,11 @@ class ndarray:
             vals = [cast(val, self._tag)] * len(idxs)
         if len(vals) != len(idxs):
             raise ValueError('shape mismatch: value array could not be broadcast to indexing result')
+        _index_guard(idxs, n)
         for ix, v in zip(idxs, vals):
             if isinstance(ix, int):
                 self._a[ix] = v
                 continue
-            ctx().defs.append(sb_and([ix >= -n, ix < n]).t)
-            event('index', (ix, n))
             for p in range(n):
                 self._a[p] = ite(sb_or([ix == p, ix == p - n]), v, self._a[p])
 
@@ -878,6 +896,19 @@ def ones_like(a, dtype=None):
     return full(a.shape, 1, dtype or a._tag)
 
 
+def full_like(a, fill_value, dtype=None):
+    """np.full_like: the fill value is broadcast to a's shape and *cast to a's dtype* (unsafe cast: floats are truncated towards
+    zero for integer arrays, complex values lose their imaginary part with a ComplexWarning)."""
+    a = _as_nd(a)
+    tag = dt_tag(dtype) or a._tag
+    if isinstance(fill_value, (ndarray, list, tuple)):
+        f = _as_nd(fill_value)
+        b = _np.broadcast_to(f._a, a.shape)
+        items = [cast(v, tag) for v in b.reshape(-1)] if a.ndim else [cast(b[()], tag)]
+        return ndarray(_fill(a.shape, items), tag)
+    return full(a.shape, fill_value, tag)
+
+
 def empty_like(a, dtype=None):
     return zeros_like(a, dtype)
 
@@ -1130,7 +1161,17 @@ def np_sum(a, axis=None, dtype=None, keepdims=False, **kw):
         a = a.astype('int')
         tag = 'int'
     r = _reduce(a, axis, lambda xs: _sum_list(xs, tag), tag)
-    return _keep(a, axis, r) if keepdims else r
+    r = _keep(a, axis, r) if keepdims else r
+    dtg = dt_tag(dtype) if dtype is not None else None
+    if dtg is not None and dtg != tag:
+        # accumulator / result dtype requested by the caller (an integer sum in uint8 wraps modulo 256)
+        r = r.astype(dtg) if isinstance(r, ndarray) else cast(r, dtg)
+    return r
+
+
+def count_nonzero(a, axis=None, keepdims=False):
+    a = _as_nd(a)
+    return np_sum(a.astype('bool').astype('int'), axis=axis, keepdims=keepdims)
 
 
 def mean(a, axis=None, where=None, **kw):
